@@ -35,11 +35,19 @@ func runC06RealSwitch(r *Run, stratum string) *Violation {
 	c.plantCheckpoint(holder, local, oldID, good, now.Add(-time.Duration(g.Choose("age", 3600))*time.Second))
 	c.plantIndex(oldID, local)
 	full := g.Choose("fullresync", 2) == 0
-	cfgOut := PipeCfg{Resume: true, DBM: DBMap{TargetDb: -1}, BatchCount: 10, BatchBytes: 1024, BatchTicker: time.Second, Keepalive: time.Second, CpTicker: time.Second}.outputConfig(oldID, local)
-	r.Sample = fmt.Sprintf("real-switch old=%s.. new=%s.. fullresync=%v position %d in db %d of %d", oldID[:6], newID[:6], full, good, holder, ndb)
+	// output.replay.resumeFromBreakPoint=false: the position lives in the output object, which the input keeps for
+	// every round of one process; a full resync must not re-label it either
+	inMem := g.Choose("inmem", 3) == 0
+	cfgOut := PipeCfg{Resume: !inMem, DBM: DBMap{TargetDb: -1}, BatchCount: 10, BatchBytes: 1024, BatchTicker: time.Second, Keepalive: time.Second, CpTicker: time.Second}.outputConfig(oldID, local)
+	r.Sample = fmt.Sprintf("real-switch old=%s.. new=%s.. fullresync=%v inmem=%v position %d in db %d of %d", oldID[:6], newID[:6], full, inMem, good, holder, ndb)
 	r.NonTriv = true
 	ro := syncer.NewRedisOutput(cfgOut)
 	var out syncer.Output = ro
+	if inMem {
+		if _, err := c.runOp("in-memory position", func(ctx context.Context) error { return syncer.VerifSetCheckpoint(ctx, ro, oldID, good) }, -1); err != nil {
+			Inconc("setCheckpoint: %v", err)
+		}
+	}
 	_, err := c.runOp("switch", func(ctx context.Context) error {
 		if full {
 			// what RedisInput.syncMeta calls after +FULLRESYNC (a tree without that method calls SetRunId there)
@@ -62,6 +70,10 @@ func runC06RealSwitch(r *Run, stratum string) *Violation {
 	var sp syncer.StartPoint
 	_, err = c.runOp("start-point", func(ctx context.Context) error {
 		var e error
+		if inMem {
+			sp, e = ro.StartPoint(ctx, ids)
+			return e
+		}
 		sp, e = syncer.NewRedisOutput(PipeCfg{Resume: true, DBM: DBMap{TargetDb: -1}, BatchCount: 10, BatchBytes: 1024, BatchTicker: time.Second, Keepalive: time.Second, CpTicker: time.Second}.outputConfig(newID, local)).StartPoint(ctx, ids)
 		return e
 	}, -1)
@@ -72,6 +84,12 @@ func runC06RealSwitch(r *Run, stratum string) *Violation {
 	case full && sp.RunId == newID && sp.Offset >= 0:
 		return &Violation{Property: "C06", Rule: "C06.carried_position", Sig: "stream continued from a position carried over from another replication history",
 			Msg: fmt.Sprintf("the source answered FULLRESYNC under the new id %s..; before any snapshot was replayed the next start under that id finds position %d - the offset the target holds of history %s..; state: %s", newID[:6], sp.Offset, oldID[:6], describeKeyspace(c.srv))}
+	case !full && inMem:
+		// the in-memory position keeps its id; the input compares it with both ids the source reports
+		if sp.Offset != good || (sp.RunId != newID && sp.RunId != oldID) {
+			return &Violation{Property: "C06", Rule: "C06.position_not_moved", Sig: "after a granted continuation under a new id the stored position is not found under it",
+				Msg: fmt.Sprintf("in-memory position: the source granted the continuation under the new id %s..; the next round finds %s..@%d, the output held %d of %s..", newID[:6], shortID(sp.RunId), sp.Offset, good, oldID[:6])}
+		}
 	case !full && (sp.RunId != newID || sp.Offset != good):
 		return &Violation{Property: "C06", Rule: "C06.position_not_moved", Sig: "after a granted continuation under a new id the stored position is not found under it",
 			Msg: fmt.Sprintf("the source granted the continuation under the new id %s..; the next start finds %s..@%d, the target holds %d of %s..; state: %s", newID[:6], shortID(sp.RunId), sp.Offset, good, oldID[:6], describeKeyspace(c.srv))}
